@@ -54,6 +54,7 @@ func TestBoundedC16(t *testing.T) {
 	l := promslog.NewNopLogger()
 	fbM, fbMs := FallbackMatcherParser(l), FallbackMatchersParser(l)
 	u8M, clM := UTF8MatcherParser(l), ClassicMatcherParser(l)
+	u8Ms, clMs := UTF8MatchersParser(l), ClassicMatchersParser(l)
 	nStrings, nMatchers := 0, 0
 	same := func(a, b *labels.Matcher) bool {
 		return a != nil && b != nil && a.Type == b.Type && a.Name == b.Name && a.Value == b.Value
@@ -93,9 +94,39 @@ func TestBoundedC16(t *testing.T) {
 					fail("fallback result for %q differs from the common/UTF-8 result", s)
 				}
 			}
-			_, _ = parse.Matchers(s)
-			_, _ = labels.ParseMatchers(s)
-			_, _ = fbMs(s, "bounded")
+			// the same selection rule for matcher lists
+			nms, nmerr := parse.Matchers(s)
+			cms, cmerr := labels.ParseMatchers(s)
+			fms, fmerr := fbMs(s, "bounded")
+			sameList := func(a, b labels.Matchers) bool {
+				if len(a) != len(b) {
+					return false
+				}
+				for i := range a {
+					if !same(a[i], b[i]) {
+						return false
+					}
+				}
+				return true
+			}
+			switch {
+			case nmerr != nil && cmerr != nil:
+				if fmerr == nil {
+					fail("fallback accepted list %q rejected by both parsers", s)
+				}
+			case nmerr != nil:
+				if fmerr != nil || !sameList(fms, cms) {
+					fail("list %q accepted only by the classic parser is not accepted with the classic result in fallback mode", s)
+				}
+			case cmerr == nil && !reflect.DeepEqual(nms, labels.Matchers(cms)):
+				if fmerr != nil || !sameList(fms, cms) {
+					fail("parsers disagree on list %q and fallback does not return the classic result", s)
+				}
+			default:
+				if fmerr != nil || !sameList(fms, nms) {
+					fail("fallback result for list %q differs from the common/UTF-8 result", s)
+				}
+			}
 		}()
 	})
 	// (2) print/parse round trip
@@ -133,6 +164,14 @@ func TestBoundedC16(t *testing.T) {
 					list := labels.Matchers{m, m}.String()
 					if got, err := fbMs(list, "bounded"); err != nil || len(got) != 2 || !same(got[0], m) || !same(got[1], m) {
 						fail("fallback mode: list %q does not parse back: %v", list, err)
+					}
+					if got, err := u8Ms(list, "bounded"); err != nil || len(got) != 2 || !same(got[0], m) || !same(got[1], m) {
+						fail("UTF-8 mode: list %q does not parse back: %v", list, err)
+					}
+					if model.LabelName(name).IsValidLegacy() {
+						if got, err := clMs(list, "bounded"); err != nil || len(got) != 2 || !same(got[0], m) || !same(got[1], m) {
+							fail("classic mode: list %q does not parse back: %v", list, err)
+						}
 					}
 				}()
 			}
